@@ -351,11 +351,11 @@ fn required_clauses(prop: &str) -> &'static [&'static str] {
         "C04" => &["c04.subscription", "c04.relay", "c04.for_each"],
         "C05" => &["c05.error-while-live"],
         "C06" => &["pipe-macro-left-to-right-test", "stage map+flatten", "stage concat", "pipelines over an unbounded iterator", "stage same source value subscribed repeatedly (concat)", "stage same source value subscribed repeatedly (flatten)"],
-        "C07" => &["c07.compare", "c07.closure-calls", "c07.take-complete", "c07.take-upstream-stop", "c07.upstream-complete"],
-        "C08" => &["c08.greeting", "c08.late-greeter-after-over", "data-sequence", "fanin.completion", "fanin.pull-reaches-member"],
-        "C09" => &["c09.boundary", "c09.outstanding-pull", "data-sequence", "fanin.completion"],
-        "C10" => &["c10.greeting", "c10.all-ended-with-a-failure", "data-sequence", "fanin.completion", "fanin.pull-reaches-member"],
-        "C11" => &["c11.inner-emitted", "c11.switch", "c11.completion", "c11.pull-routing", "data-sequence"],
+        "C07" => &["c07.compare", "c07.closure-calls", "c07.take-complete", "c07.take-upstream-stop", "c07.upstream-complete", "tree.unary-instance-steps"],
+        "C08" => &["c08.greeting", "c08.late-greeter-after-over", "data-sequence", "fanin.completion", "fanin.pull-reaches-member", "tree.merge-instance-steps"],
+        "C09" => &["c09.boundary", "c09.outstanding-pull", "data-sequence", "fanin.completion", "tree.concat-instance-steps"],
+        "C10" => &["c10.greeting", "c10.all-ended-with-a-failure", "data-sequence", "fanin.completion", "fanin.pull-reaches-member", "tree.combine-instance-steps"],
+        "C11" => &["c11.inner-emitted", "c11.switch", "c11.completion", "c11.pull-routing", "data-sequence", "tree.flatten-instance-steps"],
         "C12" => &["c12.attach", "c12.detach", "c12.fanout", "c12.resubscription"],
         "C13" => &["c13.solo-replays", "stage same source value subscribed repeatedly (concat)", "stage same source value subscribed repeatedly (flatten)"],
         "C14" => &["c14.prefix", "c14.quiescent"],
